@@ -219,6 +219,11 @@ func Unwind(n int)   {}
 func UnwindAssume(n int) {}
 func NewEpoch()      {}
 
+// FreezeAll makes every object that exists at this point (heap, globals, closure
+// environments) read-only for the rest of the path: a later store into any of them is a
+// violation labelled `label`. Objects allocated afterwards are writable. Engine-only.
+func FreezeAll(label string) {}
+
 // Protect records the full capacity of b; CheckProtected asserts it is unchanged.
 func Protect(b []byte, label string) {
 	full := b[:cap(b)]
